@@ -734,6 +734,11 @@ class IoContract(Generic[TermList_t]):
         (g2, used) = g2_t.elim_vars_by_relaxing(g1_t, intvars, simplify, tactics_order)
         tactics_used.append(used)
         allguarantees = g1 | g2
+        # each side was simplified in the context of the other, so a guarantee over interface
+        # variables which both sides imply may have been dropped from both; keep such terms
+        # (the relaxation below removes the ones that are redundant given the rest)
+        original_guarantees = g1_t | g2_t
+        allguarantees |= original_guarantees - original_guarantees.get_terms_with_vars(intvars)
         (allguarantees, used) = allguarantees.elim_vars_by_relaxing(assumptions, intvars, simplify, tactics_order)
         tactics_used.append(used)
 
